@@ -188,6 +188,19 @@ impl C13 {
         for j in 0..12 {
           exp.push((ld, 2 * j + 1, 0, 0, j + 1));
         }
+        if let Ok(Some((hh, listed, built))) = guard(|| {
+          let l = s.get_lunar_day();
+          for h in l.get_hours() {
+            let b = tyme4rs::tyme::lunar::LunarHour::from_ymd_hms(h.get_year(), h.get_month(), h.get_day(), h.get_hour(), h.get_minute(), h.get_second());
+            let (x, z) = (format!("{} {} {}", h, h.get_sixty_cycle(), h.get_index_in_day()), format!("{} {} {}", b, b.get_sixty_cycle(), b.get_index_in_day()));
+            if x != z {
+              return Some((h.get_hour() as i64, x, z));
+            }
+          }
+          None
+        }) {
+          out.fail(env, viol("hours", "lunar_slot_differs_from_constructed", case, &k, format!("slot {}:00 of the lunar day of {}", hh, c.fmt(i)), built, listed));
+        }
         if hs != exp {
           out.fail(env, viol("hours", "lunar_day_hours", case, &k, format!("lunar day of {}", c.fmt(i)), "13 slots 00:00, 01:00, 03:00, .. 23:00 with index 0..12".into(), format!("{} slots {:?}", hs.len(), hs.iter().map(|h| (h.1, h.4)).collect::<Vec<_>>())));
         }
@@ -214,6 +227,20 @@ impl C13 {
         }
         if out.wants_sample("hours", true) {
           out.sample("hours", true, || json!({"date": c.fmt(i), "sexagenary_day_slots": hs.iter().map(|h| fmt_time(h.0)).collect::<Vec<_>>()}));
+        }
+        // every listed slot is the very double-hour an independent construction from its instant gives (all four pillars)
+        if let Ok(Some((t, listed, built))) = guard(|| {
+          let sc = s.get_sixty_cycle_day();
+          for h in sc.get_hours() {
+            let t = h.get_solar_time();
+            let b = tyme4rs::tyme::solar::SolarTime::from_ymd_hms(t.get_year(), t.get_month(), t.get_day(), t.get_hour(), t.get_minute(), t.get_second()).get_sixty_cycle_hour();
+            if h.to_string() != b.to_string() || h.get_year().get_index() != b.get_year().get_index() || h.get_month().get_index() != b.get_month().get_index() {
+              return Some((ymdhms(&t), h.to_string(), b.to_string()));
+            }
+          }
+          None
+        }) {
+          out.fail(env, viol("hours", "sexagenary_slot_differs_from_constructed", case, &k, format!("slot {} of the sexagenary day of {}", fmt_time(t), c.fmt(i)), built, listed));
         }
         if hs != exp || dp != day_pillar(jdn) {
           out.fail(env, viol("hours", "sexagenary_day_hours", case, &k, format!("sexagenary day of {}", c.fmt(i)), format!("12 slots from {} 23:00 every 2 h, day pillar {}", c.fmt(i - 1), pillar_name(day_pillar(jdn))), format!("{} slots, first {:?}, pillars {:?}", hs.len(), hs.first().map(|h| fmt_time(h.0)), hs.iter().map(|h| h.2).collect::<Vec<_>>())));
@@ -316,6 +343,8 @@ impl Prop for C13 {
         out.set_exhaustive("lmonth", true);
       }
       "hours" => {
+        // strided walks on fresh threads (see engine::stride_walks)
+        stride_walks(env, out, "hours", env.tier.pick(800, 24000) / nshards as u32, 7000 + shard as u64, 0, (crate::model::NDAYS as i64), 800, &|x| vec![x], &ev);
         if shard == 0 {
           for y in [1usize, 24, 1582, 9999] {
             for i in c.year_start[y] as usize..c.year_start[y + 1] as usize {
